@@ -39,9 +39,11 @@ MEnabled(s, ts) ==
   /\ \/ s.last = "N" /\ ts[Len(ts)].k = "N"
      \/ s.last = ")" /\ ts[Len(ts)].k = ")"
      \/ s.last = "B" /\ Len(ts) > 1 /\ ts[Len(ts) - 1].k = ")"
-  /\ LET u == UnitOf(Append(ts, Tok("M", "", 1)), Len(ts) + 1) IN
+  \* the unit is looked for in the string with the earlier multipliers written out: the anchoring node of a
+  \* multiplied branch may itself carry a multiplier ([#A]|2([#B])|3)
+  /\ LET e == Expand(ts) u == UnitOf(Append(e, Tok("M", "", 1)), Len(e) + 1) IN
        /\ u.start > 0
-       /\ \A j \in u.start..u.stop : ts[j].k # "R"
+       /\ \A j \in u.start..u.stop : e[j].k # "R"
 
 Enabled(s, ts, t) ==
   /\ Len(ts) < MaxLen
